@@ -586,7 +586,9 @@ func (g *Gen) run(n int) {
 			}
 		case "isolation":
 			g.repos = []string{"r1", "r2", "r1/sub", "r1/sub/x", "r", "r1-", "blobs", "r1/blobs", "index.json", "a/oci-layout/b",
-				"r1/blobs/x", "r1/blobs/sha256/" + strings.Repeat("ab", 32), "r1/index.json/y"}
+				"r1/blobs/x", "r1/blobs/sha256/" + strings.Repeat("ab", 32), "r1/index.json/y",
+				// valid names that only resemble what a layout holds
+				"r1/index.json.d", "r1/oci-layout2", "r1/blobs2", "r1/uploads"}
 			offs, recv := map[int]int{}, map[int]string{}
 			k := 10 + g.r.Intn(30)
 			for i := 0; i < k; i++ {
@@ -987,6 +989,16 @@ func (g *Gen) isolationStep(offs map[int]int, recv map[int]string) {
 	other := g.pick(g.repos)
 	if g.r.Intn(14) == 0 {
 		g.traversalIndex(g.pick([]string{"r1", "r1", "r2"}))
+		return
+	}
+	if g.r.Intn(12) == 0 {
+		// a collection of a repository that has nested neighbours; what they hold is read again afterwards
+		g.emit("GC " + g.pick([]string{"r1", "r1", "r1/sub", "r2"}))
+		n := g.pick([]string{"r1/index.json.d", "r1/blobs2", "r1/sub", "r1/sub/x", "r1/oci-layout2"})
+		if len(g.blobsIn[n]) > 0 {
+			g.emit("BGET " + n + " sha256:" + g.pick(g.blobsIn[n]))
+		}
+		g.emit("TAGS " + n)
 		return
 	}
 	switch g.r.Intn(12) {
